@@ -135,7 +135,7 @@ def packPre (v : Ver) (gz : GzOracle) (p : Packet) (thr : Int) : Res Packet :=
     | .ok c => Res.ok { p with body := c, gzip := true }
     | .err e => .err e
     | .panic w => .panic w
-  else .ok p
+  else .ok { p with gzip := false }     -- a stale flag (relayed packet) is cleared
 
 /-- second phase of `pack`: header, metadata block, body, trailer -/
 def packTail (v : Ver) (p1 : Packet) : Res (Bytes × Packet) :=
@@ -152,6 +152,14 @@ def packTail (v : Ver) (p1 : Packet) : Res (Bytes × Packet) :=
 
 theorem pack_eq (v : Ver) (gz : GzOracle) (p : Packet) (thr : Int) :
     pack v gz p thr = packPre v gz p thr >>= packTail v := rfl
+
+/-- the incoming gzip flag of the packet plays no part in `pack`: the first phase overwrites it -/
+theorem packPre_flag_irrelevant (v : Ver) (gz : GzOracle) (p : Packet) (thr : Int) (g : Bool) :
+    packPre v gz { p with gzip := g } thr = packPre v gz p thr := rfl
+
+theorem pack_flag_irrelevant (v : Ver) (gz : GzOracle) (p : Packet) (thr : Int) (g : Bool) :
+    pack v gz { p with gzip := g } thr = pack v gz p thr := by
+  rw [pack_eq, pack_eq, packPre_flag_irrelevant]
 
 theorem maxMd_eq : ((Gen.v2_MaxMetadataLength : Nat) : Int) = 65535 := rfl
 
@@ -209,7 +217,7 @@ theorem packTail_ok (v : Ver) (p1 p' : Packet) (bs : Bytes) (h : packTail v p1 =
       cases p1.verify <;> simp
 
 theorem packPre_ok (v : Ver) (gz : GzOracle) (p p1 : Packet) (thr : Int) (h : packPre v gz p thr = .ok p1) :
-    (gzipCond v thr p.body.length = false ∧ p1 = p) ∨
+    (gzipCond v thr p.body.length = false ∧ p1 = { p with gzip := false }) ∨
     (gzipCond v thr p.body.length = true ∧ ∃ c, gz.compress p.body = .ok c ∧ p1 = { p with body := c, gzip := true }) := by
   unfold packPre at h
   split at h
@@ -224,6 +232,15 @@ theorem packPre_ok (v : Ver) (gz : GzOracle) (p p1 : Packet) (thr : Int) (h : pa
     left
     simp only [Res.ok.injEq] at h
     exact ⟨by simpa using hc, h.symm⟩
+
+/-- the flag of the packet handed on is the engagement of the threshold rule, the body is the
+compressor's output when it engaged and the packet's own otherwise — whatever the incoming flag -/
+theorem packPre_flag (v : Ver) (gz : GzOracle) (p p1 : Packet) (thr : Int) (h : packPre v gz p thr = .ok p1) :
+    p1.gzip = gzipCond v thr p.body.length ∧ (p1.gzip = true → gz.compress p.body = .ok p1.body) ∧
+    (p1.gzip = false → p1.body = p.body) := by
+  rcases packPre_ok v gz p p1 thr h with ⟨hc, rfl⟩ | ⟨hc, c, hcomp, rfl⟩
+  · exact ⟨hc.symm, (by intro hx; cases hx), fun _ => rfl⟩
+  · exact ⟨hc.symm, fun _ => hcomp, (by intro hx; cases hx)⟩
 
 theorem pack_ok_inv (v : Ver) (gz : GzOracle) (p p' : Packet) (thr : Int) (bs : Bytes)
     (h : pack v gz p thr = .ok (bs, p')) :
@@ -994,6 +1011,23 @@ theorem hdrBytes_cons (v : Ver) (f : Spec.Frame) :
     ∃ t, hdrBytes v f = UInt8.ofNat (f.type + 16 * f.verify + 32 * f.gzip + 64 * f.reserve) :: t := by
   exact ⟨_, by simp only [hdrBytes, List.cons_append, List.append_assoc]; rfl⟩
 
+/-- byte 0 of the frame `pack` emits: type nibble (1, 2 or 3), verify in bit 4, gzip in bit 5 — the
+flags of the packet as handed on by the first phase —, reserve bits clear -/
+theorem pack_byte0 (v : Ver) (gz : GzOracle) (p p' : Packet) (thr : Int) (bs : Bytes)
+    (h : pack v gz p thr = .ok (bs, p')) :
+    ∃ t rest, (t = 1 ∨ t = 2 ∨ t = 3) ∧
+      bs = UInt8.ofNat (t + 16 * (if p'.verify then 1 else 0) + 32 * (if p'.gzip then 1 else 0) + 64 * 0) :: rest := by
+  obtain ⟨_, ht, _, hbs⟩ := pack_ok_inv v gz p p' thr bs h
+  obtain ⟨t, e⟩ := hdrBytes_cons v (specOf v p')
+  refine ⟨(specOf v p').type, t ++ (mdOf v (specOf v p') ++ (specOf v p').body ++ trailerOf (specOf v p')), ?_, ?_⟩
+  · simp only [specOf]
+    cases hp : p'.type
+    · exact .inl rfl
+    · exact .inr (.inl rfl)
+    · exact .inr (.inr rfl)
+    · exact absurd hp ht
+  · rw [hbs, encode_split, e]; rfl
+
 theorem encode_length (v : Ver) (gz : GzOracle) (f : Spec.Frame) (content : Bytes) (ps : List Metadata.Pair)
     (hv : ValidFrame v gz f content ps) :
     (Spec.encode v f).length =
@@ -1044,12 +1078,16 @@ def SameMeta (p p' : Packet) : Prop :=
   p'.type = p.type ∧ p'.cmd = p.cmd ∧ p'.rid = p.rid ∧ p'.timeout = p.timeout ∧ p'.status = p.status ∧
   p'.verify = p.verify ∧ p'.nonce = p.nonce ∧ p'.signature = p.signature ∧ p'.values = p.values ∧ p'.codec = p.codec
 
+/-- whatever the incoming gzip flag of `p` (no hypothesis on it: the first phase of `pack` sets the
+flag of the packet handed on to the engagement of the threshold rule, so a stale `gzip = true` on a
+relayed packet cannot make the emitted frame claim a compressed body it does not have) -/
 theorem specOf_valid (v : Ver) (gz : GzOracle) (p p' : Packet) (thr : Int)
-    (ht : p.type ≠ .other) (hgz : p.gzip = false) (hs : gz.Sound)
+    (ht : p.type ≠ .other) (hs : gz.Sound)
     (hpre : packPre v gz p thr = .ok p') (hlen : p'.body.length ≤ 16777215)
     (hmd : v = .v2 → Metadata.rawPairs (Metadata.marshalMap p.values 65535) = .ok (Metadata.sortPairs p.values)) :
     ValidFrame v gz (specOf v p') p.body (psOf v p.values) ∧ SameMeta p p' := by
-  have hcases : (p' = p) ∨ (∃ c, gz.read c = some (p.body, true) ∧ p' = { p with body := c, gzip := true }) := by
+  have hcases : (p' = { p with gzip := false }) ∨
+      (∃ c, gz.read c = some (p.body, true) ∧ p' = { p with body := c, gzip := true }) := by
     rcases packPre_ok v gz p p' thr hpre with ⟨_, h⟩ | ⟨_, c, hc, h⟩
     · exact .inl h
     · obtain ⟨c', h1, h2⟩ := hs p.body
@@ -1084,7 +1122,7 @@ theorem specOf_valid (v : Ver) (gz : GzOracle) (p p' : Packet) (thr : Int)
     exact hmd rfl
   · intro h
     rcases hcases with h' | ⟨c, hc, h'⟩
-    · rw [h'] at h; simp [specOf, hgz] at h
+    · rw [h'] at h; simp [specOf] at h
     · rw [h']; simp only [specOf]; exact hc
   · intro h
     rcases hcases with h' | ⟨c, hc, h'⟩
